@@ -614,7 +614,7 @@ Section DirProofs.
                good (fst (step flags_spec c hidx d o)) m'.
   Proof.
     intros d m o [HR [Hm [Hne Hk]]] Hop.
-    destruct o as [k v o|k o|k| | | | |].
+    destruct o as [k v o|k o|k| | | | | |k v].
     - (* AddChild *)
       cbn [step op_ok] in *.
       assert (Hgood_add : forall d', Rel d' (mput k v m) -> kind_ok d' -> good d' (mput k v m)).
@@ -764,6 +764,8 @@ Section DirProofs.
       assert (H : Permutation (sort_links l) m).
       { apply same_perm; [apply sort_links_nodup; exact Hl|exact Hm|]. intros x. rewrite (sort_links_same l x). apply Hs. }
       rewrite (same_entries_perm _ _ H). reflexivity.
+    - (* AddChild refused by the store *)
+      cbn [step fst snd spec_step]. exists m. split; [reflexivity|]. split; [exact HR|]. auto.
   Qed.
 
   Lemma run_ok : forall ops d m, good d m -> Forall op_ok ops ->
